@@ -569,10 +569,12 @@ def rand_separator(r, must, after_slash, comments=True):
         if k < 0.6 or not comments or (i == 0 and after_slash):
             items.append(chr(r.choice(WHITESPACE)) if r.random() < 0.5 else " ")
         elif k < 0.85:
-            body = r.choice(["", "c", " x + 1 ", "*", "/", "**", "\"", "a*b", "//", "\n", "\r\n + 2", "* /", "/*", "***", " \n// x \n"])
+            body = r.choice(["", "c", " x + 1 ", "*", "/", "**", "\"", "a*b", "//", "\n", "\r\n + 2", "* /", "/*", "***", " \n// x \n",
+                            "é", " 日本語 ", "𝄞*", "ä/", "€ + 1", "\u00a0", "ααα βββ", "*é*", "\U0010ffff"])
             items.append("/*" + body + "*/")
         else:
-            body = r.choice(["", " note", "/* x", "\"", "1 + 2", "\r + 9", "\r", " x \r y", "\t*/", "\u2028 + 1", "\x0b7", "\x0c", "\u0085 - 2", " // again"])
+            body = r.choice(["", " note", "/* x", "\"", "1 + 2", "\r + 9", "\r", " x \r y", "\t*/", "\u2028 + 1", "\x0b7", "\x0c", "\u0085 - 2", " // again",
+                            " é", "日本", "𝄞 + 1", "ä*/"])
             items.append("//" + body + "\n")
     return "".join(items)
 
